@@ -333,6 +333,35 @@ def load_known_findings():
     return out
 
 
+AUDIT_PATTERNS = [r"\bunsafe\b", r"\bget_mut\b", r"\bmake_mut\b", r"\bas_ptr\b", r"\bas_mut_ptr\b",
+                  r"\bfrom_raw\b", r"\btransmute\b", r"mem::forget", r"\bManuallyDrop\b", r"\bWeak\b",
+                  r"Box::leak", r"\bUnsafeCell\b"]
+
+
+def audit_source():
+    """informational source audit of the non-BLAS build (C08, C18): constructs that could mutate a shared
+    buffer or leak past Rc; reported in the evidence, never a verdict by itself"""
+    hits = []
+    src = "/repo/src"
+    for root, _, files in os.walk(src):
+        for f in sorted(files):
+            if not f.endswith(".rs") or f == "blas.rs":
+                continue
+            p = os.path.join(root, f)
+            for ln, line in enumerate(open(p, errors="replace"), 1):
+                code = line.split("//")[0]
+                for pat in AUDIT_PATTERNS:
+                    if re.search(pat, code):
+                        hits.append("%s:%d: %s" % (os.path.relpath(p, "/repo"), ln, code.strip()[:100]))
+    decl = ""
+    try:
+        m = re.search(r"pub struct Array \{(.*?)\n\}", open(os.path.join(src, "array/mod.rs")).read(), re.S)
+        decl = " ".join(m.group(1).split()) if m else ""
+    except OSError:
+        pass
+    return {"hits": hits, "array_struct": decl}
+
+
 def dual_check(cases, rust, workdir, rtol_default):
     """Independent check of C01/C02's statement on the implementation's own output: the
     directional derivative sum_leaf <grad_leaf, t_leaf> obtained from corgi's gradients must
@@ -455,7 +484,12 @@ def main():
         if c.get("nontrivial", True):
             nontrivial.add(hashlib.sha1(json.dumps(c["instrs"], sort_keys=True, default=str)
                                         .encode()).hexdigest())
-        d = dsl.first_difference(r, m, c.get("rtol", rtol), c.get("adjudicate"), c.get("lenient"))
+        tol = c.get("rtol", rtol)
+        if c.get("scale_tol"):
+            big = max([1.0] + [abs(x) for o in m if not isinstance(o, str) for it in o for x in it[2]
+                               if x == x and abs(x) != float("inf")])
+            tol = tol * big
+        d = dsl.first_difference(r, m, tol, c.get("adjudicate"), c.get("lenient"))
         if r == ["timeout"]:
             failures.append({"case": i, "confirmed": True,
                              "reason": "corgi did not finish this program within the time limit of its chunk "
@@ -557,6 +591,8 @@ def main():
         "phases_s": phase,
     }
     coverage.update(extra_counts)
+    if spec.get("audit"):
+        coverage["source_audit"] = audit_source()
     ev = {
         "property_id": prop,
         "tier": tier,
